@@ -2016,7 +2016,10 @@ def _qm_to_bqm(
 
     if any(qm.vartype(v) is Vartype.SPIN for v in qm.variables):
         # bqm is BINARY so we want to handle these
-        qm = qm.spin_to_binary(inplace=False)
+        # qm can be an ObjectiveView/ConstraintView, copy it into a QuadraticModel first
+        new = QuadraticModel()
+        new.update(qm)
+        qm = new.spin_to_binary(inplace=True)
 
     bqm = BinaryQuadraticModel(Vartype.BINARY)
 
